@@ -3,7 +3,9 @@ UNITS = {
     "c15_controlplane": dict(pkg="./types/controlplane", tags="default_build"),
     "c15_typesdaemon": dict(pkg="./types/daemon", tags="default_build"),
     "c15_types": dict(pkg="./types", tags="default_build"),
-    "c15_plugin": dict(pkg="./plugin/terway", tags="default_build"),
+    # unshare: the IPVlan host-stack path programs tc filters on `lo` (only done when the
+    # process sees nothing but `lo`, i.e. in its own network namespace)
+    "c15_plugin": dict(pkg="./plugin/terway", tags="default_build", unshare=True),
     # unshare: terway-cli reads /var/run/eni/node_capabilities (tmpfs there) and probes netlink
     "c15_cli": dict(pkg="./cmd/terway-cli", tags="default_build", unshare=True),
     "c15_eni": dict(pkg="./pkg/eni", tags="default_build"),
@@ -18,15 +20,15 @@ UNITS = {
 PROPS = {
     "C15": dict(
         level="exploration",
-        technique="property-based testing (rapid) plus, in the thorough tier, native coverage-guided go fuzzing: per user-writable field three input generators mixed 1:1:1 (structured-valid / structured-valid with one mutation / raw byte strings) fed to the real parser and to the code that consumes its result; a panic is the only failure, except the bandwidth sentence, checked against its own arithmetic (accepted with/without unit, aliases equal, x1024 per unit step within integer truncation, monotone in n)",
-        rule="per entry point, inputs drawn 1:1:1 from valid-by-construction, valid with exactly one mutation (type swap, truncation, huge number, unicode, empty, null, renamed/duplicated key, mutation inside an embedded JSON string) and raw byte strings (random bytes / strings over the field's alphabet / hostile constants); non-trivial = the input got past the first validation step of its parser (decoded as JSON / numeric prefix parsed / annotation present / address parsed; see depth labels); distinct = distinct scenario hash",
+        technique="property-based testing (rapid) plus, in the thorough tier, native coverage-guided go fuzzing: per user-writable field three input generators mixed 1:1:1 (structured-valid / structured-valid with one mutation / raw byte strings) fed to the real parser and to the code that consumes its result; the CNI plugin target continues from parseSetupConf into the IPVlan host-stack redirect (setupFilters/dstIPRule on `lo` in a private netns) with host_stack_cidrs in dotted, IPv6 and IPv4-mapped notation; a panic is the only failure, except the bandwidth sentence, checked against its own arithmetic (accepted with/without unit, aliases equal, x1024 per unit step within integer truncation, monotone in n)",
+        rule="per entry point, inputs drawn 1:1:1 from valid-by-construction, valid with exactly one mutation (type swap, truncation, huge number, unicode, empty, null, renamed/duplicated key, mutation inside an embedded JSON string) and raw byte strings (random bytes / strings over the field's alphabet / hostile constants); CNI configurations are IPVlan configurations with 1..3 host_stack_cidrs entries (IPv4-mapped IPv6 prefixes 96..128 over-represented) in one case of three; non-trivial = the input got past the first validation step of its parser (decoded as JSON / numeric prefix parsed / annotation present / address parsed; see depth labels); distinct = distinct scenario hash",
         assumptions=[
             "daemon mode (ENIMultiIP/ENIOnly) and the reply's IP type are restricted to the values the daemon itself produces (convertPod and getDatePath panic by design on others)",
             "the daemon's reply reaches the plugin as gRPC messages: absent sub-messages are nil, repeated fields never hold nil",
             "stored records are decoded as InitResourceDB's deserialiser does (json.Unmarshal into daemon.PodResources; the closure itself is bound to a fixed path and is mirrored)",
         ],
         level_text="generated inputs for 15 parser/consumer entry points of the daemon, controllers, webhook, CNI plugin and terway-cli, with per-entry depth histograms; exploration, not proof; the thorough tier adds 8 native coverage-guided fuzz targets (30 s each) over the same oracles",
-        level_note="parseSetupConf is only given ENI MACs that are empty (a MAC that does not resolve makes it wait 10 s); storeRuntimeConfig is only called on chains without cilium-cni (it would run nsenter/mount on the host); processInput's kernel/bpftool probes, InitResourceDB's closure and getENIConfig of terway-cli are mirrored (<= 5 lines each); controller-runtime recovers panics of webhook handlers and reconcilers by default, the harness calls podWebhook / podNetworkingWebhook / podNumaHints directly and is therefore stricter than production; not reached: daemon AllocIP with stored records (needs a running pool, see C04/C05), plugin datapath set-up after parsing (C13), k8s.serviceCidrFromAPIServer / GetDynamicConfigWithName, Windows code",
+        level_note="parseSetupConf is only given ENI MACs that are empty (a MAC that does not resolve makes it wait 10 s); storeRuntimeConfig is only called on chains without cilium-cni (it would run nsenter/mount on the host); processInput's kernel/bpftool probes, InitResourceDB's closure and getENIConfig of terway-cli are mirrored (<= 5 lines each); controller-runtime recovers panics of webhook handlers and reconcilers by default, the harness calls podWebhook / podNetworkingWebhook / podNumaHints directly and is therefore stricter than production; the kernel of this sandbox refuses u32/mirred filters, so the IPVlan host-stack path ends at the first FilterAdd (rule computation, FilterList and matching are executed), and it is only judged for replies that carry an IPv4 service CIDR (the daemon always sends one); not reached: daemon AllocIP with stored records (needs a running pool, see C04/C05), plugin datapath set-up after parsing (C13), k8s.serviceCidrFromAPIServer / GetDynamicConfigWithName, Windows code",
         tests=[
             dict(unit="c15_k8s", test="TestVerifC15Bandwidth", quick=30000, thorough=3000000),
             dict(unit="c15_k8s", test="TestVerifC15BandwidthScale", quick=10000, thorough=1000000),
